@@ -80,6 +80,111 @@ def check_case(ctx, cfg, seed):
     ctx.count('clip' if cfg.kl is not None else 'noclip')
 
 
+def exact_layer_stream(ctx):
+    """the real GPTNeoXKFACEigenLayer.preconditioned_grad on mp simulated ranks with scripted exact
+    eigen data on the primary, compared EXACTLY with the Lean data-movement model (KV.NeoxL.neoxPrecond)"""
+    import os
+    import sys
+    from fractions import Fraction as Fr
+    import torch
+    import simdist
+    sys.path.insert(0, os.path.dirname(os.path.abspath(__file__)))
+    import C01
+    neoxsim.stubs()
+    from kfac.distributed import TorchDistributedCommunicator
+    from kfac.gpt_neox.layer import GPTNeoXKFACEigenLayer
+    from kfac.gpt_neox.modules import GPTNeoXLinearModuleHelper
+    rng = ctx.rng
+    lines, pend = [], []
+    for it in range(ctx.budget(40, 400)):
+        par = rng.choice(['col', 'row'])
+        mp = rng.choice([1, 2, 2, 3, 4])
+        primary = rng.randrange(mp)
+        bias = rng.random() < 0.6
+        fin_s, fout_s = rng.choice([1, 2, 3]), rng.choice([1, 2])
+        fin = fin_s * (mp if par == 'row' else 1)
+        fout = fout_s * (mp if par == 'col' else 1)
+        a, g = fin + int(bias), fout
+        if a > 8 or g > 8:
+            continue
+        Qa, Qg = C01.orth(rng, a), C01.orth(rng, g)
+        da = torch.tensor([float(rng.choice([0, 1])) for _ in range(a)], dtype=torch.float64)
+        dg = torch.tensor([float(rng.choice([0, 1, 3, 7])) for _ in range(g)], dtype=torch.float64)
+        wfull = torch.tensor([[float(rng.randrange(-9, 10)) for _ in range(fin)] for _ in range(fout)], dtype=torch.float64)
+        bfull = torch.tensor([float(rng.randrange(-9, 10)) for _ in range(fout)], dtype=torch.float64)
+        case = {'par': par, 'mp': mp, 'primary': primary, 'bias': bias, 'fin': fin, 'fout': fout}
+
+        def prog(rank):
+            import torch.distributed as dist
+            w = simdist._tls.world
+            w.muted[rank] = True
+            grp = dist.new_group(list(range(mp)))
+            w.muted[rank] = False
+            if par == 'col':
+                n = fout // mp
+                m = torch.nn.Linear(fin, n, bias=bias).double()
+                m.weight.grad = wfull[rank * n:(rank + 1) * n].clone()
+                if bias:
+                    m.bias.grad = bfull[rank * n:(rank + 1) * n].clone()
+                parallelism = 'output'
+            else:
+                n = fin // mp
+                m = torch.nn.Linear(n, fout, bias=bias).double()
+                m.weight.grad = wfull[:, rank * n:(rank + 1) * n].clone()
+                if bias:
+                    m.bias.grad = bfull.clone()
+                parallelism = 'input'
+            hlp = GPTNeoXLinearModuleHelper(m, grp, parallelism)
+            lay = GPTNeoXKFACEigenLayer(hlp, parallelism=parallelism, model_parallel_group=grp,
+                                        tdc=TorchDistributedCommunicator(), inv_dtype=torch.float64, primary_rank=primary)
+            if rank == primary:
+                lay.qa, lay.da, lay.qg, lay.dg = Qa.clone(), da.clone(), Qg.clone(), dg.clone()
+            lay.preconditioned_grad(damping=1.0)
+            return lay.grad.clone(), hlp.a_factor_shape[0], hlp.g_factor_shape[0]
+
+        wd, res = simdist.run_world(mp, prog, seed=ctx.seed * 53 + it)
+        if wd.stalled or wd.exceptions or wd.errors:
+            ctx.fail(f'layer run failed: stalled={wd.stalled} exc={dict(list(wd.exceptions.items())[:1])} errors={wd.errors[:1]}',
+                     case, 'neox-layer-run')
+            continue
+        if par == 'col':
+            shards = [wfull[r * (fout // mp):(r + 1) * (fout // mp)] for r in range(mp)]
+            bsh = [bfull[r * (fout // mp):(r + 1) * (fout // mp)] for r in range(mp)]
+            rows, wcols, shardin, shardout = 0, fin, fin, fout // mp
+        else:
+            shards = [wfull[:, r * (fin // mp):(r + 1) * (fin // mp)] for r in range(mp)]
+            bsh = [bfull for _ in range(mp)]
+            rows, wcols, shardin, shardout = fout, fin, fin // mp, fout
+        lines.append(f'neoxl par={par} mp={mp} primary={primary} rows={rows} wcols={wcols} shardin={shardin} shardout={shardout} '
+                     f'g={g} a={a} w={"#".join(C01.mstr(x) for x in shards)} '
+                     f'b={"#".join(C01.vstr(x) for x in bsh) if bias else "none"} '
+                     f'qa={C01.mstr(Qa)} da={C01.vstr(da)} qg={C01.mstr(Qg)} dg={C01.vstr(dg)} lam=1')
+        pend.append((case, res))
+        ctx.case(lines[-1], nontrivial=mp > 1, sample=case)
+        ctx.count('exact-layer-' + par)
+    for (case, res), mo in zip(pend, ctx.model.ask(lines)):
+        if mo is None:
+            continue
+        parts = mo.split(' ')
+        ok = True
+        why = ''
+        ad, gd = int(parts[0].split('=')[1]), int(parts[1].split('=')[1])
+        for r, (grad, ash, gsh) in enumerate(res):
+            if (ash, gsh) != (ad, gd):
+                ok, why = False, f'factor shapes ({ash},{gsh}) vs model ({ad},{gd})'
+                break
+            _, wpart, bpart = parts[2 + r].split(':')
+            wm, bm = wpart[2:], bpart[2:]
+            wt = grad[:, :-1] if case['bias'] else grad
+            if not C01.matches(wt, wm):
+                ok, why = False, f'rank {r} weight shard {wt.tolist()} vs model {wm}'
+                break
+            if case['bias'] and [Fr(x) for x in bm.split(',')] != [Fr(float(x)) for x in grad[:, -1].tolist()]:
+                ok, why = False, f'rank {r} bias {grad[:, -1].tolist()} vs model {bm}'
+                break
+        ctx.compare('neox-layer-exact', dict(case, why=why), 'match' if ok else why, 'match')
+
+
 def gen(ctx, rng):
     while True:
         cfg = neoxsim.NCfg(rng)
@@ -92,6 +197,7 @@ def gen(ctx, rng):
 
 
 def run(ctx):
+    exact_layer_stream(ctx)
     rng = ctx.rng
     # corpus -------------------------------------------------------------------------------------
     corpus = []
